@@ -1,126 +1,30 @@
 package server
 
-// C19 harness, part 4: shapes of known findings that the generator avoids by
-// construction (VERIF_NOEXCLUDE=<name> switches an exclusion off; the driver
-// re-checks a known finding by replaying its file).
+// C19 harness, part 4: hooks for shapes of known findings that the generator
+// would avoid by construction (guarded by verifkit.Known(<name>) and counted
+// with col.Excluded).
+//
+// There are NO active exclusions: the ten findings of the first campaign
+// (index-name-escape, path-invalid-utf8, hnsw-params-unvalidated (+huge),
+// ef-search-unvalidated, maintenance-config-unvalidated (+ef),
+// find-path-unbounded-depth, float16-overflow-inf,
+// import-commit-then-drop-segv) were fixed in /repo; their replays are the
+// regression corpus replays/C19/reg_*.json and every one of those shapes is
+// generated and fully asserted again. The hooks stay so that a future finding
+// can be excluded in one place.
 
-import (
-	"encoding/json"
-	"net/url"
-	"regexp"
-	"strconv"
-	"strings"
-	"unicode/utf8"
+// knownName: hook for an index name on a create route.
+func (g *c19G) knownName(name string) string { return name }
 
-	"github.com/sanonone/kektordb/internal/verifkit"
-)
+// applyKnown: hook for the (possibly mutated) fields of one request.
+func (g *c19G) applyKnown(r c19Route, fs []c19KV) {}
 
-// knownName neutralises an index name that has the shape of finding
-// "index-name-escape": <data>/arenas/<name> resolves outside <data>.
-func (g *c19G) knownName(name string) string {
-	if verifkit.Known("index-name-escape") && c19Escapes(name) {
-		g.excluded = append(g.excluded, "index-name-escape")
-		return strings.ReplaceAll(name, "..", "dd")
-	}
-	return name
-}
+// knownTarget: hook for the request target.
+func (g *c19G) knownTarget(target string) string { return target }
 
-// applyKnown rewrites known-finding shapes in the (possibly mutated) fields of a request.
-func (g *c19G) applyKnown(r c19Route, fs []c19KV) {
-	for i := range fs {
-		if k := c19KnownExtreme(r.Path, fs[i].k, fs[i].v); k != "" && verifkit.Known(k) {
-			fs[i].v = "2"
-			g.excluded = append(g.excluded, k)
-		}
-		if c19IsCreate(r) && fs[i].k == "index_name" {
-			var name string
-			if json.Unmarshal([]byte(fs[i].v), &name) == nil {
-				if n2 := g.knownName(name); n2 != name {
-					fs[i].v = c19Q(n2)
-				}
-			}
-		}
-	}
-}
+// knownCase: hook for case-level shapes.
+func (g *c19G) knownCase(c *c19Case) {}
 
-// knownTarget neutralises finding "path-invalid-utf8": a request path that
-// percent-decodes to bytes that are not valid UTF-8.
-func (g *c19G) knownTarget(target string) string {
-	if !verifkit.Known("path-invalid-utf8") {
-		return target
-	}
-	p, q, hasQ := strings.Cut(target, "?")
-	dec, err := url.PathUnescape(p)
-	if err != nil || utf8.ValidString(dec) {
-		return target
-	}
-	g.excluded = append(g.excluded, "path-invalid-utf8")
-	var b strings.Builder
-	for i := 0; i < len(p); i++ {
-		if p[i] == '%' && i+2 < len(p) && c19Hex(p[i+1]) >= 8 && c19Hex(p[i+2]) >= 0 {
-			b.WriteString("%7E")
-			i += 2
-			continue
-		}
-		if p[i] >= 0x80 {
-			b.WriteString("%7E")
-			continue
-		}
-		b.WriteByte(p[i])
-	}
-	if hasQ {
-		return b.String() + "?" + q
-	}
-	return b.String()
-}
-
-// c19KnownExtreme names the known finding a (route, field, value) combination
-// belongs to ("" = none). Used by the deterministic sweep.
-func c19KnownExtreme(path, field, val string) string {
-	var x float64
-	isNum := json.Unmarshal([]byte(val), &x) == nil
-	switch {
-	case (path == "/vector/indexes" || path == "/vector/actions/create") && (field == "m" || field == "ef_construction") && isNum && ((field == "m" && x == 1) || x > 1e12):
-		return "hnsw-params-unvalidated"
-	case (strings.HasSuffix(field, "refine_batch_size") || strings.HasSuffix(field, "refine_ef_construction")) && isNum && (x < 0 || x > 1e12):
-		return "maintenance-config-unvalidated"
-	case path == "/vector/actions/search" && strings.HasPrefix(field, "ef_search") && isNum && (x < 0 || x > 1e12):
-		return "ef-search-unvalidated"
-	case path == "/graph/actions/find-path" && strings.HasPrefix(field, "max_depth") && isNum && x > 100000:
-		return "find-path-unbounded-depth"
-	}
-	return ""
-}
-
-var c19ExpRe = regexp.MustCompile(`[0-9](?:\.[0-9]+)?[eE]\+?([0-9]+)`)
-
-// knownCase neutralises case-level shapes. Finding "float16-overflow-inf": a
-// float16 index (created or compressed to) together with a number of
-// magnitude >= 1e5 anywhere in the case (float16 tops out at 65504).
-func (g *c19G) knownCase(c *c19Case) {
-	if !verifkit.Known("float16-overflow-inf") {
-		return
-	}
-	f16, big := false, false
-	for _, r := range c.Reqs {
-		if strings.Contains(r.Body, `"float16"`) {
-			f16 = true
-		}
-		for _, m := range c19ExpRe.FindAllStringSubmatch(r.Body, -1) {
-			if e, err := strconv.Atoi(m[1]); err == nil && e >= 5 {
-				big = true
-			}
-		}
-		for _, lit := range []string{"100000", "1000000", "4611686018427387904", "9223372036854775807", "9223372036854775808"} {
-			if strings.Contains(r.Body, lit) {
-				big = true
-			}
-		}
-	}
-	if f16 && big {
-		for i := range c.Reqs {
-			c.Reqs[i].Body = strings.ReplaceAll(c.Reqs[i].Body, `"float16"`, `"float32"`)
-		}
-		g.excluded = append(g.excluded, "float16-overflow-inf")
-	}
-}
+// c19KnownExtreme: hook for the deterministic sweep; names the known finding a
+// (route, field, value) combination belongs to ("" = none).
+func c19KnownExtreme(path, field, val string) string { return "" }
